@@ -66,37 +66,40 @@ async def scenario(ws, acts, drains, trace=None):
             if not ws[head] > CAP - tot:
                 raise Bad('liveness: head waiter blocked while enough capacity is free')
 
-    for s in range(len(acts)):
-        a = acts[s]
-        if a == 0:
-            if len(tasks) >= n:
-                raise sched.Prune()
-            tasks.append(asyncio.ensure_future(job(len(tasks))))
-        else:
-            i = a - 1
-            if i >= len(tasks) or gate_set[i]:
-                raise sched.Prune()
-            gate_set[i] = True
+    try:
+        for s in range(len(acts)):
+            a = acts[s]
+            if a == 0:
+                if len(tasks) >= n:
+                    raise sched.Prune()
+                tasks.append(asyncio.ensure_future(job(len(tasks))))
+            else:
+                i = a - 1
+                if i >= len(tasks) or gate_set[i]:
+                    raise sched.Prune()
+                gate_set[i] = True
+                gates[i].set()
+            if drains[s]:
+                await sched.settle()
+                check()
+            if trace is not None:
+                trace.append((a, bool(drains[s]), list(inside), sem.value))
+        await sched.settle()
+        check()
+        # everything that was started can finish: open every gate, all jobs leave, capacity is whole again
+        for i in range(len(tasks)):
             gates[i].set()
-        if drains[s]:
-            await sched.settle()
-            check()
-        if trace is not None:
-            trace.append((a, bool(drains[s]), list(inside), sem.value))
-    await sched.settle()
-    check()
-    # everything that was started can finish: open every gate, all jobs leave, capacity is whole again
-    for i in range(len(tasks)):
-        gates[i].set()
-    await sched.settle()
-    check()
-    for t in tasks:
-        if not t.done():
-            raise Bad('liveness: a job never finished although every holder left')
-        t.result()
-    if sem.value != CAP:
-        raise Bad('accounting: value != capacity after every job left')
-    return stats
+        await sched.settle()
+        check()
+        for t in tasks:
+            if not t.done():
+                raise Bad('liveness: a job never finished although every holder left')
+            t.result()
+        if sem.value != CAP:
+            raise Bad('accounting: value != capacity after every job left')
+        return stats
+    finally:
+        await sched.cleanup(tasks)
 
 
 def _args(w0, w1, w2, rest):
@@ -128,8 +131,9 @@ def reach(w0, w1, w2, *rest):
     return not st['waited']
 
 
-def replay(args, k):
+def replay(args, meta):
     """Plain asyncio, no CrossHair.  -> (ok, class, why)"""
+    k = meta['k']
     rest = [args[f'a{i}'] for i in range(1, k)] + [args[f'd{i}'] for i in range(k)]
     ws, acts, drains = _args(args['w0'], args['w1'], args['w2'], rest)
     trace = []
